@@ -52,7 +52,9 @@ class World:
 def env_for(run_seed: int, label: str, rnd: random.Random, default: bool = False) -> Dict[str, Any]:
     """A simulated environment for one generator invocation."""
     if default:
-        return {"hashseed": "0", "uuid_seed": None, "ls_seed": None, "locale": None}
+        # clean room: hash seed 0, real listing order, UTF-8; the uuid stream is seeded with a constant
+        # (not the real uuid4) so that even a run whose output wrongly depends on the ids replays exactly
+        return {"hashseed": "0", "uuid_seed": 1, "ls_seed": None, "locale": None}
     hs = rnd.choice(["0", str(rnd.randrange(1, 2**32 - 1)), str(rnd.randrange(1, 2**32 - 1)), "random"])
     if hs == "random":
         # "random" is what users get by default; for replayability the simulator draws the value
